@@ -292,7 +292,7 @@ def _work(args):
             if isinstance(cfgcls, dict) and 'shipped' in cfgcls:
                 tr = shipped_case(tid, seed, cfgcls['shipped'], cfgcls['swap'], cfgcls['types'])
             else:
-                tr = run_case(tid, seed, cfgcls, workdir, thorough)
+                tr = common.guarded(run_case, 1200, tid, seed, cfgcls, workdir, thorough)
             if tr is None:
                 skipped += 1
                 continue
